@@ -284,6 +284,26 @@ def run_cli_directed(ctx):
             e2e.write_files(d, files)
             for extra in ([], ['-S', 'all'], ['-v'], ['-S', 'fail', '-o', 'yaml'], ['-d', 'd.yaml']):
                 jobs.append({'args': ['validate', '-r', 'r.guard', '-d', 'd.json'] + extra, 'cwd': d}); meta.append(('console-cfn %s' % dname, jobs[-1]['args'], files))
+    # custom messages that are empty, or only separators, once the console reporters split them on ';' / newline and trim the
+    # parts (emit_messages indexed part 0 of an empty list - fixed in /repo): on every kind of failing clause of a template
+    msgs = ['<< ; >>', '<<;>>', '<< >>', '<<>>', '<<\n>>', '<< \n \n >>', '<<;;>>', '<< ;a >>', '<< a; >>', '<< a;;b >>', '<<\n a\n\n b\n>>', '<< é;中 >>', '<<\t;\t>>']
+    clause_forms = ['Resources.*.Properties.Size == 2 %s', 'Resources.*.Properties.Size in [2, 3] %s', 'Resources.*.Properties.Missing exists %s',
+                    'Resources.*.Properties.Missing == 1 %s', 'Resources.*.Properties.Size is_string %s', 'Resources.*.Properties.Size == Resources.*.Properties.Nope %s',
+                    'Resources.*.Properties {\n    Size == 2 %s\n  }', 'some Resources.*.Properties.Size == 2 %s', 'Resources.*.Properties.Size == 2 %s or Resources.*.Properties.Size == 3 %s']
+    tf_doc = {'resource_changes': [{'address': 'a.b', 'type': 'aws_s3_bucket', 'name': 'b', 'change': {'after': {'Size': 1}}}], 'terraform_version': '1.0'}
+    for mi, mtext in enumerate(msgs):
+        d = os.path.join(ctx.wd, 'cli%d' % len(jobs))
+        body = ''.join('rule m%d {\n  %s\n}\n' % (i, cf.replace('%s', mtext)) for i, cf in enumerate(clause_forms))
+        files = {'r.guard': body, 'd.json': json.dumps(cfn_docs['only-after'], indent=1), 'plain.json': json.dumps({'Other': {'Size': 1}}),
+                 'tf.json': json.dumps(tf_doc, indent=1), 'rtf.guard': 'rule t {\n  resource_changes[*].change.after.Size == 2 %s\n}\n' % mtext,
+                 'rplain.guard': 'rule t {\n  Other.Size == 2 %s\n  Other.Nope exists %s\n}\n' % (mtext, mtext)}
+        e2e.write_files(d, files)
+        for args in (['validate', '-r', 'r.guard', '-d', 'd.json'], ['validate', '-r', 'r.guard', '-d', 'd.json', '-S', 'all', '-v'],
+                     ['validate', '-r', 'r.guard', '-d', 'd.json', '-o', 'yaml'], ['validate', '-r', 'r.guard', '-d', 'd.json', '--structured', '-o', 'sarif', '-S', 'none'],
+                     ['validate', '-r', 'r.guard', '-d', 'd.json', '--structured', '-o', 'junit', '-S', 'none'],
+                     ['validate', '-r', 'rtf.guard', '-d', 'tf.json'], ['validate', '-r', 'rplain.guard', '-d', 'plain.json'], ['validate', '-r', 'rplain.guard', '-d', 'plain.json', '-S', 'all'],
+                     ['validate', '-r', 'rplain.guard', '-d', 'plain.json', '-p']):
+            jobs.append({'args': args, 'cwd': d}); meta.append(('custom message %r' % mtext, args, files))
     # every short-form tag the source tables name (rules/mod.rs, read by the translator; the reviewed copy when that fails),
     # some the tables do not name, with a scalar and a sequence payload, as data of validate, as an input-parameter file and
     # as the input of a test spec: the two tag sets and the short->long mapping must stay in sync (a miss is unreachable!())
